@@ -21,14 +21,19 @@ unset RUSTFLAGS
 if grep -q 'cadence_macros' "$DEMO"; then TDIR=cadence-macros/tests; PKG=cadence-macros; else TDIR=cadence/tests; PKG=cadence; fi
 cp "$DEMO" "$SCR/$TDIR/seed_demo.rs"
 cd "$SCR"
-run_demo() { timeout 600 cargo test --offline -p $PKG --test seed_demo >"$SCR/demo.log" 2>&1; }
+if [ "${SEED_MIRI:-0}" = "1" ]; then
+  # the demonstration only shows under Miri (e.g. a data race that x86 hardware does not expose)
+  run_demo() { MIRIFLAGS="-Zmiri-many-seeds=0..6" timeout 1800 cargo +nightly miri test --offline -p $PKG --test seed_demo >"$SCR/demo.log" 2>&1; }
+else
+  run_demo() { timeout 600 cargo test --offline -p $PKG --test seed_demo >"$SCR/demo.log" 2>&1; }
+fi
 run_demo; rc_clean=$?
 if [ $rc_clean -ne 0 ]; then echo "$ID: REJECTED - demonstration does not pass on the unchanged tree"; tail -15 "$SCR/demo.log"; exit 1; fi
 git apply "$PATCH" || { echo "$ID: REJECTED - patch does not apply"; exit 1; }
 if git diff --name-only | grep -qv '^cadence\(-macros\)\?/src/'; then echo "$ID: REJECTED - patch touches files outside the library sources"; exit 1; fi
 run_demo; rc_mut=$?
 if [ $rc_mut -eq 0 ]; then echo "$ID: REJECTED - demonstration still passes with the change"; exit 1; fi
-demo_fail=$(grep -E "panicked at|assertion|test result" "$SCR/demo.log" | head -3 | tr '\n' ' ')
+demo_fail=$(grep -E "panicked at|assertion|test result|Undefined Behavior" "$SCR/demo.log" | head -3 | tr '\n' ' ')
 rm -f "$SCR/$TDIR/seed_demo.rs"
 BASELINE_TARGET_DIR="$SCR/target" /verif/tools/baseline_off.sh "$SCR" >"$SCR/suite.log" 2>&1; rc_suite=$?
 if [ $rc_suite -ne 0 ]; then echo "$ID: REJECTED - existing suite does not reproduce the baseline with the change"; tail -8 "$SCR/suite.log"; exit 1; fi
